@@ -85,6 +85,12 @@ func errorResponse(writer *buffer.Writer, err error) error {
 		writer.AddNullTerminate()
 	}
 
+	if desc.ConstraintName != "" {
+		writer.AddByte(byte(errFieldConstraintName))
+		writer.AddString(desc.ConstraintName)
+		writer.AddNullTerminate()
+	}
+
 	writer.AddNullTerminate()
 	return writer.End()
 }
